@@ -1447,6 +1447,40 @@ func Wr[T any](p *T, name string) *T {
 	return p
 }
 
+// RdSlice marks plain reads of every element of s (a slice handed to code
+// that reads its elements, e.g. strings.Join) and returns s.
+func RdSlice[T any](s []T, name string) []T {
+	if st := active(); st != nil && st.opts.Race {
+		for i := range s {
+			st.access(unsafe.Pointer(&s[i]), false, false, name)
+		}
+	}
+	return s
+}
+
+// Append is append(s, vals...) with the element accesses it performs made
+// visible to the detector: the writes into the spare capacity of s when the
+// result stays in place, the reads of s when it is copied to a new array, and
+// the reads of vals.
+func Append[T any](s []T, name string, vals ...T) []T {
+	if st := active(); st != nil && st.opts.Race {
+		for i := range vals {
+			st.access(unsafe.Pointer(&vals[i]), false, false, name)
+		}
+		if len(s)+len(vals) <= cap(s) {
+			full := s[:len(s)+len(vals)]
+			for i := len(s); i < len(full); i++ {
+				st.access(unsafe.Pointer(&full[i]), true, false, name)
+			}
+		} else {
+			for i := range s {
+				st.access(unsafe.Pointer(&s[i]), false, false, name)
+			}
+		}
+	}
+	return append(s, vals...)
+}
+
 // ---------------------------------------------------------------- helpers used by rewritten code
 
 func Go0(name string, f func()) { GoNamed(name, f) }
